@@ -32,14 +32,17 @@ Theorem C03_zero_skip_var : forall c tv vn b, is_zero tv = Ok true ->
   (exists f, get_fn c (pk_key vn) = FRule f) \/ (exists t, get_fn c (pk_key vn) = FMark t) ->
   var_rule c tv vn b = Ok b.
 Proof. exact zero_skip_var. Qed.
+Print Assumptions C03_zero_skip_var.
 Theorem C03_zero_skip_map : forall c prefix key v vn b, is_zero v = Ok true ->
   (exists f, get_fn c (pk_key vn) = FRule f) \/ (exists t, get_fn c (pk_key vn) = FMark t) ->
   map_rule c prefix key v vn b = Ok b.
 Proof. exact zero_skip_map. Qed.
+Print Assumptions C03_zero_skip_map.
 Theorem C03_zero_skip_url : forall c key vn b,
   (exists f, get_fn c (pk_key vn) = FRule f) \/ (exists t, get_fn c (pk_key vn) = FMark t) ->
   url_rule c key [] vn b = Ok b.
 Proof. exact zero_skip_url. Qed.
+Print Assumptions C03_zero_skip_url.
 Print Assumptions C03_zero_skip_struct.
 
 (* a pointer to a non-empty scalar under required is not reported (the spurious "is not struct"
